@@ -34,8 +34,12 @@ func (o *Obligation) queryMode(forCvc5 bool, skeleton bool) string {
 		if !tr.noPrune && os.Getenv("GOVC_NOPRUNE") == "" {
 			keep = tr.relevantFacts(o.Goal, o.Extra, o.NFacts, skeleton)
 		}
+		axKeep := tr.relevantAxioms(o, keep)
 		for i, f := range tr.facts[:o.NFacts] {
 			if keep != nil && !keep[i] {
+				continue
+			}
+			if i >= tr.axiomFrom && i < tr.axiomTo && axKeep != nil && !axKeep[i-tr.axiomFrom] {
 				continue
 			}
 			sb.WriteString("(assert ")
@@ -125,7 +129,11 @@ func discharge(o *Obligation, dir string, timeout int, wantModel bool) {
 	}
 	q := o.query(false)
 	os.WriteFile(f0, []byte("(set-option :smt.auto_config false)\n(set-option :smt.mbqi false)\n(set-option :smt.candidate_models true)\n"+q+"(get-info :reason-unknown)\n(get-model)\n"), 0o644)
-	res, dt, out := runSolver(solvers[0], timeout, f0)
+	t0 := timeout
+	if o.Expect == "sat" && t0 > 10 {
+		t0 = 10 // reachability checks: only a quick definite unsat matters
+	}
+	res, dt, out := runSolver(solvers[0], t0, f0)
 	o.Solver = "z3-new"
 	o.Time += dt
 	o.Model = out
@@ -235,4 +243,111 @@ func dischargeAll(obls []*Obligation, dir string, timeout int, workers int) {
 	}
 	close(ch)
 	wg.Wait()
+}
+
+// relevantAxioms: a global axiom of the contract file is put into a query only if one of the uninterpreted functions it
+// speaks about occurs in the goal, in a kept fact or in an axiom already selected (fixpoint).  Dropping an axiom can
+// only make a proof harder, never unsound.
+var genericSyms = map[string]bool{"str_lower": true, "obase": true, "ftag": true, "fbase": true, "eidx": true, "ea": true, "sla": true, "jv": true,
+	"oCnt": true, "oVal": true, "isObj": true, "jNull": true, "if_t": true, "if_v": true, "sl_len": true, "sl_arr": true, "sl_off": true, "sl_cap": true, "select": true, "store": true}
+
+func (tr *Translator) declaredFuns() map[string]bool {
+	if tr.declFuns != nil && tr.declFunsN == len(tr.u.decls) {
+		return tr.declFuns
+	}
+	m := map[string]bool{}
+	for _, d := range tr.u.decls {
+		for _, pre := range []string{"(declare-fun ", "(define-fun-rec ", "(define-fun "} {
+			if strings.HasPrefix(d, pre) {
+				rest := d[len(pre):]
+				if j := strings.IndexAny(rest, " ("); j > 0 {
+					m[rest[:j]] = true
+				}
+			}
+		}
+	}
+	tr.declFuns, tr.declFunsN = m, len(tr.u.decls)
+	return m
+}
+
+func funSymsIn(s string, funs map[string]bool, out map[string]bool) {
+	i, n := 0, len(s)
+	for i < n {
+		c := s[i]
+		if c == '"' {
+			j := i + 1
+			for j < n && s[j] != '"' {
+				j++
+			}
+			i = j + 1
+			continue
+		}
+		if c == '(' || c == ')' || c == ' ' || c == '\n' {
+			i++
+			continue
+		}
+		j := i
+		for j < n && s[j] != '(' && s[j] != ')' && s[j] != ' ' && s[j] != '\n' && s[j] != '"' {
+			j++
+		}
+		if tok := s[i:j]; funs[tok] && !genericSyms[tok] {
+			out[tok] = true
+		}
+		i = j
+	}
+}
+
+func (tr *Translator) relevantAxioms(o *Obligation, keep []bool) []bool {
+	if tr.axiomTo <= tr.axiomFrom || os.Getenv("GOVC_ALLAXIOMS") != "" {
+		return nil
+	}
+	funs := tr.declaredFuns()
+	used := map[string]bool{}
+	funSymsIn(o.Goal, funs, used)
+	for _, e := range o.Extra {
+		funSymsIn(e, funs, used)
+	}
+	for i, f := range tr.facts[:o.NFacts] {
+		if i >= tr.axiomFrom && i < tr.axiomTo {
+			continue
+		}
+		if keep != nil && !keep[i] {
+			continue
+		}
+		funSymsIn(f, funs, used)
+	}
+	n := tr.axiomTo - tr.axiomFrom
+	if tr.axiomSyms == nil {
+		tr.axiomSyms = make([]map[string]bool, n)
+		for k := 0; k < n; k++ {
+			m := map[string]bool{}
+			funSymsIn(tr.facts[tr.axiomFrom+k], funs, m)
+			tr.axiomSyms[k] = m
+		}
+	}
+	sel := make([]bool, n)
+	for changed := true; changed; {
+		changed = false
+		for k := 0; k < n; k++ {
+			if sel[k] {
+				continue
+			}
+			syms := tr.axiomSyms[k]
+			hit := len(syms) == 0
+			for sname := range syms {
+				if used[sname] {
+					hit = true
+					break
+				}
+			}
+			if hit {
+				sel[k] = true
+				changed = true
+				for sname := range syms {
+					used[sname] = true
+				}
+			}
+		}
+	}
+	return sel
 }
